@@ -26,6 +26,8 @@
 (*                        domain geometry from the distribution's geometry *)
 (*   SamplesFunItemsAsParameters  columns of a Samples of function values  *)
 (*                        are converted with par2fun again (Model._apply_func) *)
+(*   CopySharesAssembledMatrix  a model and its shallow copy (model(dist), *)
+(*                        copy(model)) keep the assembled matrix in ONE cell *)
 (* The deciding configurations have Dev = {}; each *.deviation.cfg switches *)
 (* one deviation on and TLC must answer with a counterexample.             *)
 (*                                                                         *)
@@ -565,10 +567,99 @@ SeqEmit(s) ==
     ELSE TRUE
 
 \* ===========================================================================
+\* C07, part "SEQ2": the same operations on TWO objects - a model and a shallow copy of it
+\* ===========================================================================
+\* model(distribution) returns a copy of the model that differs in the name of its argument only (it is what the user
+\* stores in Gaussian(model(x), ...)); copy.copy(model) is the same without the renaming.  The copy is an object of its
+\* own:
+\*     Copy(k)                       m2 = m1(x)  (k = "call", x a named distribution of the model's parameter dimension)
+\*                                   m2 = copy(m1)  (k = "copy")                         once per behaviour
+\* and from then on every action of part SEQ is applied to EITHER object, in any order (field `o` of the logged step:
+\* 1 = the original, 2 = the copy; each object has its own held transposed model).  The abstract state is one SEQ record
+\* per object (obj[o]: d, r, mc, t, tc); an action on an object IS the SEQ action on its record and leaves the record of
+\* the other object alone.  The copy starts with the pair of the original and with the assembled matrix the original
+\* keeps (a value for that very pair); it has no transposed model yet.
+\* INTENDED design: each object answers for ITS OWN current pair of geometries, whatever was assigned to or asked from
+\* the other one - a geometry assigned to the copy through the public setter is the copy's, the original is unaffected,
+\* and vice versa.  (Nothing is said about mutating a geometry object in place: the actions only ASSIGN geometries.)
+\* Deviation:
+\*   CopySharesAssembledMatrix     the assembled matrix lives in ONE cell shared by the object and its copy (a container
+\*                        copied by reference, filled and emptied in place): what one object assembles or drops the
+\*                        other one keeps or loses too, so an object may report the matrix of the OTHER object's pair
+\* Bounds: before the copy at most Seq2Pre of the calls after which an object may keep something (get_matrix; T in the
+\* full instance) - a copy taken after an assignment is the copy of another start configuration; after the copy every
+\* behaviour of Seq2Post actions.  Assignable geometries: the cyclic neighbours of the current one in the pool.  The lean
+\* instance (quick tier) assigns the next one to the original and the previous one to the copy (the two objects never get
+\* the same new geometry), leaves t.get_matrix() / t.T to the full instance, ends every behaviour with an action that
+\* returns something (the comparison of forward / adjoint that follows a last assignment follows every other assignment
+\* too) and does not fix the realisation of Copy ("any": the replay alternates between the two).
+Seq2Pre   == 1
+Seq2Post  == 3
+Seq2Kinds == IF Lean THEN {"any"} ELSE {"call", "copy"}
+Seq2Start == IF Lean
+             THEN { <<"dense", 2, 3, 1>>, <<"sparse", 1, 1, 1>>, <<"func", 1, 1, 1>>, <<"func", 4, 2, 1>> }
+             ELSE SeqStart
+Seq2Alt(pool, cur, g, o) ==
+    LET n   == Len(pool)
+        nxt == (cur % n) + 1
+        prv == (((cur + n) - 2) % n) + 1
+    IN g # cur /\ (IF Lean THEN g = (IF o = 1 THEN nxt ELSE prv) ELSE g \in {nxt, prv})
+
+Seq2Pairs(objs) == [i \in 1..Len(objs) |-> <<objs[i].d, objs[i].r>>]
+\* the SEQ record of object o (the SEQ actions are applied to it) ...
+Seq2View(s, o) == [mk |-> s.mk, d |-> s.obj[o].d, r |-> s.obj[o].r, mc |-> s.obj[o].mc, t |-> s.obj[o].t, tc |-> s.obj[o].tc,
+                   hist |-> s.hist]
+\* ... and the state after the SEQ action turned it into v: the record of o is replaced, the other record is untouched
+\* (deviation: the cell of the assembled matrix is shared - whatever o now keeps is what the other object keeps)
+Seq2Put(s, o, v) ==
+    LET shared == "CopySharesAssembledMatrix" \in Dev
+        objs == [i \in 1..Len(s.obj) |->
+                    IF i = o THEN [d |-> v.d, r |-> v.r, mc |-> v.mc, t |-> v.t, tc |-> v.tc]
+                    ELSE IF shared THEN [s.obj[i] EXCEPT !.mc = v.mc] ELSE s.obj[i]]
+        st == v.hist[Len(v.hist)]
+    IN [s EXCEPT !.obj = objs, !.post = IF Len(s.obj) = 2 THEN @ + 1 ELSE @,
+                 !.hist = Append(s.hist, [a |-> st.a, g |-> st.g, o |-> o, d |-> st.d, r |-> st.r, tp |-> st.tp, mp |-> st.mp,
+                                          inh |-> st.inh, pairs |-> Seq2Pairs(objs)])]
+Seq2Copy(s, k) ==
+    LET o1 == s.obj[1]
+        o2 == [o1 EXCEPT !.t = NoT]
+    IN [s EXCEPT !.obj = <<o1, o2>>, !.ck = k, !.post = 0,
+                 !.hist = Append(s.hist, [a |-> "C", g |-> 0, o |-> 2, d |-> o2.d, r |-> o2.r, tp |-> <<>>, mp |-> <<>>,
+                                          inh |-> FALSE, pairs |-> Seq2Pairs(<<o1, o2>>)])]
+
+InitSeq2 == c \in { [part |-> "SEQ2", mk |-> k[1], fi |-> k[4], d0 |-> k[2], r0 |-> k[3], ck |-> "", post |-> 0,
+                     obj |-> << [d |-> k[2], r |-> k[3], mc |-> <<>>, t |-> NoT, tc |-> NoT] >>, hist |-> <<>>] : k \in Seq2Start }
+NextSeq2 == /\ c.part = "SEQ2"
+            /\ \/ Len(c.obj) = 1 /\ \E k \in Seq2Kinds : c' = Seq2Copy(c, k)
+               \/ \E o \in 1..Len(c.obj) :
+                    LET v == Seq2View(c, o)
+                        two == Len(c.obj) = 2
+                        mayset == two /\ (Lean => c.post < Seq2Post - 1)
+                    IN /\ IF two THEN c.post < Seq2Post ELSE Len(c.hist) < Seq2Pre
+                       /\ \/ c' = Seq2Put(c, o, SeqGetMatrix(v))
+                          \/ (two \/ ~Lean) /\ c' = Seq2Put(c, o, SeqT(v))
+                          \/ two /\ v.t.on /\ ~Lean /\ c' = Seq2Put(c, o, SeqTG(v))
+                          \/ two /\ v.t.on /\ ~Lean /\ c' = Seq2Put(c, o, SeqTT(v))
+                          \/ mayset /\ \E g \in 1..Len(SeqD) : Seq2Alt(SeqD, v.d, g, o) /\ SeqGeoOK(c.mk, SeqD[g])
+                                                               /\ c' = Seq2Put(c, o, SeqSet(v, "D", g))
+                          \/ mayset /\ \E g \in 1..Len(SeqR) : Seq2Alt(SeqR, v.r, g, o) /\ SeqGeoOK(c.mk, SeqR[g])
+                                                               /\ c' = Seq2Put(c, o, SeqSet(v, "R", g))
+
+Seq2Emit(s) ==
+    IF s.hist = <<>>
+    THEN PrintT("@@CASE " \o ToJson([kind |-> "seq2init", mk |-> s.mk, fi |-> s.fi, d |-> s.d0, r |-> s.r0, D |-> SeqD, R |-> SeqR,
+                                      pre |-> Seq2Pre, post |-> Seq2Post]) \o " @@END")
+    ELSE IF Len(s.obj) = 2 /\ s.post = Seq2Post
+    THEN PrintT("@@CASE " \o ToJson([kind |-> "seq2", mk |-> s.mk, fi |-> s.fi, d0 |-> s.d0, r0 |-> s.r0, ck |-> s.ck,
+                                      steps |-> s.hist]) \o " @@END")
+    ELSE TRUE
+
+\* ===========================================================================
 Configs == CASE Part = "C07" -> {k \in LinConfigs : LinValid(k)}
              [] Part = "TP"  -> {k \in TPConfigs : TPValid(k)}
              [] Part = "C12" -> {k \in C12Configs : C12Valid(k)}
              [] Part = "SEQ" -> {}
+             [] Part = "SEQ2" -> {}
 
 \* one named invariant per property, so that a deviation run names what it violates
 Adjoint     == c.part = "C07" => LinEval(c, "adjoint")        \* <Fwd x, y> = <x, Adj y>
@@ -584,10 +675,18 @@ Rename      == c.part = "C12" => C12Eval(c, "rename")
 SeqMatrixCurrent    == c.part = "SEQ" => (c.mc # <<>> => c.mc = SeqCur(c))
 SeqTransposeCurrent == c.part = "SEQ" => (c.t.on => (c.t.p = SeqCur(c) /\ (c.t.mc # <<>> => c.t.mc = c.t.p)))
 SeqTColumns         == c.part = "SEQ" => ((c.t.on /\ c.t.inh) => SeqInheritOK[c.fi][c.t.mc[1]][c.t.mc[2]])
+\* SEQ2: the same for each of the two objects - what an object keeps was computed for ITS OWN current geometries
+Seq2Objs == IF c.part = "SEQ2" THEN 1..Len(c.obj) ELSE {}
+Seq2MatrixCurrent    == \A o \in Seq2Objs : (c.obj[o].mc # <<>> => c.obj[o].mc = <<c.obj[o].d, c.obj[o].r>>)
+Seq2TransposeCurrent == \A o \in Seq2Objs : LET t == c.obj[o].t
+                                             IN t.on => (t.p = <<c.obj[o].d, c.obj[o].r>> /\ (t.mc # <<>> => t.mc = t.p))
+Seq2TColumns         == \A o \in Seq2Objs : LET t == c.obj[o].t
+                                             IN (t.on /\ t.inh) => SeqInheritOK[c.fi][t.mc[1]][t.mc[2]]
 EmitCases   == Emit => CASE c.part = "C07" -> LinEval(c, "emit")
                          [] c.part = "TP"  -> TPEval(c, "emit")
                          [] c.part = "C12" -> C12Eval(c, "emit")
                          [] c.part = "SEQ" -> SeqEmit(c)
+                         [] c.part = "SEQ2" -> Seq2Emit(c)
                          [] OTHER          -> TRUE
 
 \* TLC evaluates the invariants of initial states in one thread: the initial states are seeds (one per domain geometry /
